@@ -186,32 +186,37 @@ Print Assumptions vdataz_fault_inv_satisfiable.
 (* ---------------------------------------------------------------- the vnacal_new_t allocation skeleton (Mem/NewAlloc.v) *)
 Require Import LV.Mem.NewAlloc LV.Mem.NewAllocProofs.
 
-(* vnacal_new_set_m_error with any fault point ([s] is arbitrary): completes, every live block is still referred to.
-   PARTIAL: see Properties_C03.v (the other calls of the life cycle are tied, not proved). *)
-Theorem new_merr_fault_clean_partial : forall F v ps a s, Post F v ps s ->
-  exists v' o s', set_m_error NFixed v a s = Ok ((v', o), s') /\ Post F v' ps s'.
+(* every call of the life cycle with any fault point ([s] is arbitrary): it completes with Done or an errno class and the world
+   invariant holds again (nothing orphaned, nothing dangling), so every later call is safe and vnacal_free releases everything
+   (new_no_fault / new_no_leak_partial of Properties_C03.v with k = Some _) *)
+Theorem new_fault_clean : forall w op s, WInv w s -> exists w' o s', wstep NFixed w op s = Ok ((w', o), s') /\ WInv w' s'.
+Proof. exact new_fault_clean_lemma. Qed.
+Print Assumptions new_fault_clean.
+
+Theorem new_fault_history_no_fault : forall ks ops k f, cfg_ok ks -> whistory NFixed ks ops (start (Some k)) <> Fault f.
+Proof. intros ks ops k; exact (new_no_fault_lemma ks ops (Some k)). Qed.
+Print Assumptions new_fault_history_no_fault.
+
+(* vnacal_new_set_m_error (after the repair DI90): every argument class, every fault point: completes, and a call that does
+   not return 0 leaves the vnacal_new_t exactly as it was - ATOMIC *)
+Theorem new_merr_fault_atomic : forall F v ps a s, Post F v ps s ->
+  exists v' o s', set_m_error NFixed v a s = Ok ((v', o), s') /\ Post F v' ps s' /\ (o <> Done -> v' = v).
 Proof. exact new_merr_fault_clean_lemma. Qed.
-Print Assumptions new_merr_fault_clean_partial.
+Print Assumptions new_merr_fault_atomic.
 
 Theorem new_fault_post_satisfiable : exists v ps s, Post [] v ps s /\ vn_merr v <> None /\ length (live s) = 6%nat.
 Proof. exact NewAllocProofs.new_post_satisfiable. Qed.
 Print Assumptions new_fault_post_satisfiable.
 
-(* atomic when no spline is computed: ENOMEM leaves the structure as it was (with Post: and the ledger) *)
-Theorem new_merr_atomic : forall v a s v' s', (a = MESet 0 \/ a = MEClear \/ a = MEBadCount \/ a = MEInvalid) ->
-  set_m_error NFixed v a s = Ok ((v', Err ENOMEM), s') -> v' = v.
-Proof. exact new_merr_atomic_lemma. Qed.
-Print Assumptions new_merr_atomic.
-
-(* NOT atomic, as coded (each witness is replayed against the library by the tie: the directed history
-   t8_1x1_correlated with every request failing once) *)
+(* the code before the repair DI90 (variant NSplineLate): a failing spline leaves a fresh, zeroed vector installed *)
 Theorem new_merr_spline_not_atomic_refuted :
-  exists ks ops k w os s, wrun NFixed (mkW (mkprms ks) []) ops (start (Some k)) = Ok ((w, os), s) /\
+  exists ks ops k w os s, wrun NSplineLate (mkW (mkprms ks) []) ops (start (Some k)) = Ok ((w, os), s) /\
     last os Done = Err ENOMEM /\
     map (fun o => match o with Some v => match vn_merr v with Some _ => true | None => false end | None => false end) (w_new w) = [true].
 Proof. exact new_merr_spline_not_atomic_refuted_lemma. Qed.
 Print Assumptions new_merr_spline_not_atomic_refuted.
 
+(* NOT atomic, as coded (witnesses replayed against the library by the enumeration of the tie; DI91 for the first) *)
 Theorem new_add_not_atomic_refuted :
   exists ks ops k w os s, wrun NFixed (mkW (mkprms ks) []) ops (start (Some k)) = Ok ((w, os), s) /\
     last os Done = Err ENOMEM /\
